@@ -223,7 +223,12 @@ def build(active_known=frozenset()):
     pack.common_setup.append(setup)
     pack.trust("a text stream's read(1) returns the next character, and the empty string for ever once the text is exhausted")
     pack.trust("collections.deque(iterable, maxlen) keeps the last maxlen appended items and indexes them like a list (model in pyvc/lib.py)")
-    pack.assume("only StreamReader is under contract; the form readers on top of it (totality, SyntaxError-only, EOF classification) are not")
+    pack.assume("under contract: StreamReader, _with_loc (span tagging), _read_reader_macro (dispatch branch), the prefix readers (quote, deref, unquote, syntax-quote, "
+                "metadata, #_), _read_comment, _consume_whitespace, _read_reader_conditional_macro; NOT under contract: the collection / number / string / symbol / "
+                "keyword / character / regex / reader-conditional readers, read() itself, totality and 'SyntaxError only' for the reader as a whole")
+    pack.assume("_read_next_consuming_comment, the readers behind the # dispatch table and the function decorated by _with_loc are used by contract (induction over the "
+                "nesting depth): they move the cursor forward, keep the stream reader well-formed, return a form (the eof value exactly when nothing but whitespace and "
+                "comments is left) or raise a syntax error")
     mod = "basilisp.lang.reader:StreamReader."
 
     def op(name, moves=False, reads=False):
